@@ -460,7 +460,7 @@ theorem C17_rep (g : NodeGrammar) (uni : Uni) (fuel : Nat) (inh : Bool) (sk : Fl
   · cases h
   · next i1 m1 vs hl =>
     injection h with a b c; subst a b c
-    obtain ⟨l, mL, hr, ho, hmin, hmx, hstop⟩ := repLoop_unitP_ok _ _ _ _ _ _ _ _ _ _ _ _ _ _ hl
+    obtain ⟨l, mL, hr, ho, hmin, hmx, hstop⟩ := repLoop_unitP_ok _ _ _ _ _ _ _ 0 _ _ [] _ _ _ rfl hl
     simp only [List.reverse_nil, List.nil_append] at ho
     subst ho
     have hm : (Val.mk (.rep min max) (l.map Iter.val)).repMatched = l.map Iter.matched :=
